@@ -38,11 +38,10 @@ MANIFEST_ENTRY = {
             "returned hit is the best-ranked candidate of its group (C18_collapse_best_of_candidates), groups appear in "
             "the order of their best hits (C18_collapse_order), inner hits are the other candidates of the group under "
             "the inner order, windowed by from/size (C18_collapse_inner, C18_window); over all matching documents when "
-            "the candidates cover each touched group's best document (C18_collapse_covering). Without covering the "
+            "the candidates cover each touched group's best document (C18_collapse_covering, C18_model_meets_spec). Without covering the "
             "statement fails (C18_best_of_all_refuted; known finding 1, reported as KNOWN-FINDING). The tie recomputes "
             "every response from uncollapsed requests.",
     "note": "Trusted: Coq kernel; ranks taken from the implementation's uncollapsed requests; the engine's candidate "
-            "reconstruction. C18_model_meets_spec is not proved (the executable spec is tied to the theorems only by "
-            "reading); listed as partial in notes/C18.md.",
+            "reconstruction. The executable spec is met by the model on covering inputs (C18_model_meets_spec).",
     "technique": "Coq proof over a Gallina model of collapse_hits + differential check against uncollapsed big requests",
 }
